@@ -283,16 +283,16 @@ theorem CohAt.toRS {s : SStr} {text : List Char} {a : Nat} (h : CohAt s text a) 
 theorem firstLine_length_le (u : Bool) (l : List Char) : (firstLine u l).length ≤ l.length := by
   fun_induction firstLine u l <;> simp_all <;> omega
 
-theorem SStr.readline_spec (s : SStr) (text : List Char) (h : Coh s text) :
-    s.readline.1 = firstLine true (text.drop s.tell) ∧ Coh s.readline.2 text ∧
-    s.readline.2.tell = s.tell + s.readline.1.length ∧ s.readline.2.chunk = s.chunk := by
-  have hr := Reader.readline_spec s.st s.rd (text.drop s.tell) (CohAt.toRS h) h.lb
-  have hout : s.readline.1 = firstLine true (text.drop s.tell) := hr.1
-  have hlen : s.readline.1.length ≤ (text.drop s.tell).length := by
+/-- one line of the codec reader, from any coherent state: the first `str.splitlines` line of what is left -/
+theorem SStr.codecLine_spec (s : SStr) (text : List Char) (a : Nat) (h : CohAt s text a) :
+    s.codecLine.1 = firstLine true (text.drop a) ∧ CohAt s.codecLine.2 text (a + s.codecLine.1.length) ∧
+    s.codecLine.2.tell = s.tell ∧ s.codecLine.2.chunk = s.chunk ∧
+    s.codecLine.2.maxSize = s.maxSize ∧ s.codecLine.2.rolled = s.rolled := by
+  have hr := Reader.readline_spec s.st s.rd (text.drop a) (CohAt.toRS h) h.lb
+  have hout : s.codecLine.1 = firstLine true (text.drop a) := hr.1
+  have hlen : s.codecLine.1.length ≤ (text.drop a).length := by
     rw [hout]; exact firstLine_length_le _ _
-  refine ⟨hout, ?_, rfl, rfl⟩
-  unfold Coh
-  show CohAt s.readline.2 text (s.tell + s.readline.1.length)
+  refine ⟨hout, ?_, rfl, rfl, rfl, rfl⟩
   rcases hr.2.1 with ⟨⟨X, p, hrc, hx⟩, hin⟩
   refine ⟨?_, hin, ?_, ⟨X, p, hrc, ?_⟩, hr.2.2.1⟩
   · show (s.rd.readline s.st).2.1.data = encode text
@@ -300,46 +300,161 @@ theorem SStr.readline_spec (s : SStr) (text : List Char) (h : Coh s text) :
   · have := h.ale; simp only [List.length_drop] at hlen; omega
   · rw [← List.drop_drop]; exact hx
 
-theorem noExotic_drop (l : List Char) (n : Nat) (h : noExotic l = true) : noExotic (l.drop n) = true := by
-  simp only [noExotic, List.all_eq_true] at *
-  intro c hc; exact h c (List.mem_of_mem_drop hc)
+/-! #### joining codec lines until one ends in CR / LF gives io.StringIO's line -/
 
-theorem isBrk_noExotic (c : Char) (h : isExotic c = false) : isBrk true c = isBrk false c := by
-  simp [isBrk, h]
+theorem endsCRLF_nil : endsCRLF [] = false := rfl
 
-theorem firstLine_noExotic (l : List Char) (h : noExotic l = true) : firstLine true l = firstLine false l := by
-  induction l with
+theorem endsCRLF_cons (c : Char) (cs : List Char) (h : cs ≠ []) : endsCRLF (c :: cs) = endsCRLF cs := by
+  cases cs with
+  | nil => exact absurd rfl h
+  | cons d ds => simp [endsCRLF, List.getLast?_cons_cons]
+
+theorem endsCRLF_append (a b : List Char) (h : b ≠ []) : endsCRLF (a ++ b) = endsCRLF b := by
+  induction a with
   | nil => rfl
-  | cons c cs ih =>
-    have hc : isExotic c = false := by
-      simp only [noExotic, List.all_cons, Bool.and_eq_true, Bool.not_eq_true'] at h; exact h.1
-    have hcs : noExotic cs = true := by
-      simp only [noExotic, List.all_cons, Bool.and_eq_true] at h; exact h.2
-    simp only [firstLine, isBrk_noExotic c hc, ih hcs]
+  | cons c a ih =>
+    rw [List.cons_append, endsCRLF_cons c (a ++ b) (by simp [h]), ih]
 
-/-- enough: the line io.StringIO cuts holds no exotic boundary -/
-theorem firstLine_noExotic_line (l : List Char) (h : noExotic (firstLine false l) = true) :
-    firstLine true l = firstLine false l := by
+theorem endsCRLF_single (c : Char) : endsCRLF [c] = (decide (c = '\r') || decide (c = '\n')) := by
+  simp [endsCRLF]
+
+/-- io.StringIO's line = the codec reader's line, continued (when that one stopped at a boundary that is not CR / LF,
+    i.e. VT, FF, FS, GS, RS, NEL, LS, PS) by io.StringIO's line of what follows -/
+theorem firstLine_join (l : List Char) :
+    firstLine false l = firstLine true l ++
+      (if endsCRLF (firstLine true l) then [] else firstLine false (l.drop (firstLine true l).length)) := by
   induction l with
-  | nil => rfl
+  | nil => simp [firstLine, endsCRLF]
   | cons c cs ih =>
     by_cases hcr : c = '\r'
-    · subst hcr; simp [firstLine]
-    · by_cases hb : isBrk false c = true
-      · have hb' : isBrk true c = true := by
-          simp only [isBrk, Bool.or_eq_true] at hb ⊢
-          exact Or.inl (by simpa using hb)
-        simp [firstLine, hcr, hb, hb']
-      · have hfl : firstLine false (c :: cs) = c :: firstLine false cs := by simp [firstLine, hcr, hb]
-        rw [hfl] at h
-        have hc : isExotic c = false := by
-          simp only [noExotic, List.all_cons, Bool.and_eq_true, Bool.not_eq_true'] at h; exact h.1
-        have hcs : noExotic (firstLine false cs) = true := by
-          simp only [noExotic, List.all_cons, Bool.and_eq_true] at h ⊢; exact h.2
-        simp only [firstLine, isBrk_noExotic c hc, ih hcs]
+    · subst hcr
+      cases cs with
+      | nil => simp [firstLine, endsCRLF]
+      | cons d cs' => by_cases hd : d = '\n' <;> simp [firstLine, hd, endsCRLF]
+    · by_cases hlf : c = '\n'
+      · subst hlf; simp [firstLine, isBrk, endsCRLF]
+      · have hbf : isBrk false c = false := by simp [isBrk, hlf]
+        by_cases hex : isExotic c = true
+        · have hbt : isBrk true c = true := by simp [isBrk, hex]
+          have h1 : firstLine true (c :: cs) = [c] := by simp [firstLine, hcr, hbt]
+          have h2 : firstLine false (c :: cs) = c :: firstLine false cs := by simp [firstLine, hcr, hbf]
+          rw [h1, h2, endsCRLF_single]
+          simp [hcr, hlf]
+        · have hbt : isBrk true c = false := by simp [isBrk, hlf, hex]
+          have h1 : firstLine true (c :: cs) = c :: firstLine true cs := by simp [firstLine, hcr, hbt]
+          have h2 : firstLine false (c :: cs) = c :: firstLine false cs := by simp [firstLine, hcr, hbf]
+          rw [h1, h2]
+          by_cases hn : firstLine true cs = []
+          · have hcs : cs = [] := (firstLine_eq_nil true cs).1 hn
+            subst hcs
+            simp [firstLine, endsCRLF_single, hcr, hlf]
+          · rw [endsCRLF_cons c _ hn]
+            simp only [List.length_cons, List.drop_succ_cons, List.cons_append]
+            rw [← ih]
 
-theorem noExotic_of_sublist_take (l : List Char) (n : Nat) (h : noExotic l = true) : noExotic (l.take n) = true := by
-  simp only [noExotic, List.all_eq_true] at *
-  intro c hc; exact h c (List.mem_of_mem_take hc)
+/-- the loop of the fixed `readline()`, from a coherent state with `ret` already read: it returns `ret`, continued by
+    io.StringIO's line of what is left unless `ret` is empty or already ends in CR / LF -/
+theorem SStr.rlJoin_spec (fuel : Nat) (ret : List Char) (s : SStr) (text : List Char) (a : Nat)
+    (h : CohAt s text a) (hf : (text.drop a).length + 1 ≤ fuel) :
+    (SStr.rlJoin fuel ret s).1 =
+      ret ++ (if ret.isEmpty || endsCRLF ret then [] else firstLine false (text.drop a)) ∧
+    CohAt (SStr.rlJoin fuel ret s).2 text (a + ((SStr.rlJoin fuel ret s).1.length - ret.length)) ∧
+    (SStr.rlJoin fuel ret s).2.tell = s.tell ∧ (SStr.rlJoin fuel ret s).2.chunk = s.chunk ∧
+    (SStr.rlJoin fuel ret s).2.maxSize = s.maxSize ∧ (SStr.rlJoin fuel ret s).2.rolled = s.rolled := by
+  induction fuel generalizing ret s a with
+  | zero => omega
+  | succ fuel ih =>
+    unfold SStr.rlJoin
+    by_cases h1 : (ret.isEmpty || endsCRLF ret) = true
+    · rw [if_pos h1, if_pos h1]
+      refine ⟨by simp, ?_, rfl, rfl, rfl, rfl⟩
+      show CohAt s text (a + (ret.length - ret.length))
+      rw [Nat.sub_self, Nat.add_zero]; exact h
+    · rw [if_neg h1, if_neg h1]
+      have hc := SStr.codecLine_spec s text a h
+      by_cases h2 : s.codecLine.1.isEmpty = true
+      · rw [if_pos h2]
+        have hnil : s.codecLine.1 = [] := List.isEmpty_iff.1 h2
+        have hrest : text.drop a = [] := (firstLine_eq_nil true _).1 (by rw [← hc.1]; exact hnil)
+        have hcoh := hc.2.1
+        rw [hnil] at hcoh
+        simp only [List.length_nil, Nat.add_zero] at hcoh
+        rw [hrest]
+        refine ⟨by simp [firstLine], ?_, hc.2.2.1, hc.2.2.2.1, hc.2.2.2.2.1, hc.2.2.2.2.2⟩
+        show CohAt s.codecLine.2 text (a + (ret.length - ret.length))
+        rw [Nat.sub_self, Nat.add_zero]; exact hcoh
+      · rw [if_neg h2]
+        have hne : s.codecLine.1 ≠ [] := fun h0 => h2 (by rw [h0]; rfl)
+        have hpos : 0 < s.codecLine.1.length := List.length_pos_iff.2 hne
+        have hle : s.codecLine.1.length ≤ (text.drop a).length := by
+          rw [hc.1]; exact firstLine_length_le _ _
+        have hdrop : text.drop (a + s.codecLine.1.length) = (text.drop a).drop s.codecLine.1.length := by
+          rw [List.drop_drop]
+        have := ih (ret ++ s.codecLine.1) s.codecLine.2 (a + s.codecLine.1.length) hc.2.1
+          (by rw [hdrop, List.length_drop]; omega)
+        rcases this with ⟨i1, i2, i3, i4, i5, i6⟩
+        have hnotE : ((ret ++ s.codecLine.1).isEmpty || endsCRLF (ret ++ s.codecLine.1))
+            = endsCRLF (firstLine true (text.drop a)) := by
+          rw [endsCRLF_append _ _ hne, hc.1]
+          have : (ret ++ firstLine true (text.drop a)).isEmpty = false := by
+            rw [← hc.1]; cases ret <;> simp_all
+          rw [this]; rfl
+        have hout : (SStr.rlJoin fuel (ret ++ s.codecLine.1) s.codecLine.2).1
+            = ret ++ firstLine false (text.drop a) := by
+          rw [i1, hnotE, hdrop, firstLine_join (text.drop a), hc.1, List.append_assoc]
+        refine ⟨hout, ?_, by rw [i3, hc.2.2.1], by rw [i4, hc.2.2.2.1], by rw [i5, hc.2.2.2.2.1],
+          by rw [i6, hc.2.2.2.2.2]⟩
+        have hlen1 : ret.length + s.codecLine.1.length
+            ≤ (SStr.rlJoin fuel (ret ++ s.codecLine.1) s.codecLine.2).1.length := by
+          rw [i1]; simp only [List.length_append]; omega
+        have : a + s.codecLine.1.length +
+            ((SStr.rlJoin fuel (ret ++ s.codecLine.1) s.codecLine.2).1.length - (ret ++ s.codecLine.1).length)
+            = a + ((SStr.rlJoin fuel (ret ++ s.codecLine.1) s.codecLine.2).1.length - ret.length) := by
+          simp only [List.length_append]; omega
+        rw [this] at i2
+        exact i2
+
+/-- `readline()` (after the fix) returns io.StringIO's line: up to and including the first LF, CR or CRLF -/
+theorem SStr.readline_spec (s : SStr) (text : List Char) (h : Coh s text) :
+    s.readline.1 = firstLine false (text.drop s.tell) ∧ Coh s.readline.2 text ∧
+    s.readline.2.tell = s.tell + s.readline.1.length ∧ s.readline.2.chunk = s.chunk := by
+  have hc := SStr.codecLine_spec s text s.tell h
+  have hle : s.codecLine.1.length ≤ (text.drop s.tell).length := by
+    rw [hc.1]; exact firstLine_length_le _ _
+  have hdata : s.st.data.length = blen text := by rw [h.data]; rfl
+  have hfuel : (text.drop (s.tell + s.codecLine.1.length)).length + 1 ≤ s.st.data.length + 2 := by
+    have := length_le_blen text
+    simp only [List.length_drop]; omega
+  have hj := SStr.rlJoin_spec (s.st.data.length + 2) s.codecLine.1 s.codecLine.2 text
+    (s.tell + s.codecLine.1.length) hc.2.1 hfuel
+  have hout : s.readline.1 = firstLine false (text.drop s.tell) := by
+    show (SStr.rlJoin (s.st.data.length + 2) s.codecLine.1 s.codecLine.2).1 = _
+    rw [hj.1, firstLine_join (text.drop s.tell), hc.1, List.drop_drop]
+    by_cases hn : firstLine true (text.drop s.tell) = []
+    · have hrest : text.drop s.tell = [] := (firstLine_eq_nil true _).1 hn
+      simp [hrest, firstLine, endsCRLF]
+    · have : (firstLine true (text.drop s.tell)).isEmpty = false := by
+        cases hfl : firstLine true (text.drop s.tell) with
+        | nil => exact absurd hfl hn
+        | cons _ _ => rfl
+      rw [this, Bool.false_or]
+  refine ⟨hout, ?_, rfl, ?_⟩
+  · unfold Coh
+    show CohAt s.readline.2 text (s.tell + s.readline.1.length)
+    have hlen : s.codecLine.1.length ≤ s.readline.1.length := by
+      show _ ≤ (SStr.rlJoin (s.st.data.length + 2) s.codecLine.1 s.codecLine.2).1.length
+      rw [hj.1]; simp
+    have h2 := hj.2.1
+    have : s.tell + s.codecLine.1.length +
+        ((SStr.rlJoin (s.st.data.length + 2) s.codecLine.1 s.codecLine.2).1.length - s.codecLine.1.length)
+        = s.tell + s.readline.1.length := by
+      show _ = s.tell + (SStr.rlJoin (s.st.data.length + 2) s.codecLine.1 s.codecLine.2).1.length
+      have := hlen
+      simp only [SStr.readline] at this
+      omega
+    rw [this] at h2
+    exact CohAt_congr _ _ text _ h2 rfl rfl
+  · show (SStr.rlJoin (s.st.data.length + 2) s.codecLine.1 s.codecLine.2).2.chunk = s.chunk
+    rw [hj.2.2.2.1, hc.2.2.2.1]
 
 end C18
